@@ -359,7 +359,8 @@ func buildCharClassSearchers(
 			}
 		}
 		result.branchDispatcher = nfa.NewBranchDispatcher(altPart)
-		if result.branchDispatcher == nil {
+		if !result.branchDispatcher.IsExact() {
+			result.branchDispatcher = nil
 			// Fallback to BoundedBacktracker if dispatch not possible
 			result.finalStrategy = UseBoundedBacktracker
 			result.boundedBT = nfa.NewBoundedBacktracker(btNFA)
